@@ -253,6 +253,8 @@ def run(ctx) -> None:
     ctx.guard_as("R09.13", r06_2)
     from .c04 import r04_14
     ctx.guard_as("R09.14", r04_14)  # "a header equal to the given one": the transports add members to a header, they never remove one  # "with the matching key": each primitive asks the key for its own operation (verify needs "verify", not "sign")
+    from .c02 import r02_6 as _r02_6
+    ctx.guard_as("R09.16", _r02_6)  # "only after the integrity check of the transport passed": every segment of the JWE is accounted for (an encrypted key where none belongs is refused)
     ctx.guard(r09_1)
     ctx.guard(r09_2_3)
     ctx.guard(r09_4_5)
